@@ -1,10 +1,27 @@
 package sequence
 
-import "sync/atomic"
+import (
+	"sync"
+	"sync/atomic"
+)
 
 type Seq uint64
 
 var seq uint64
+
+// snapshotM makes "draw a snapshot point and register the transaction" atomic
+// with respect to "find the oldest registered transaction or draw a horizon".
+var snapshotM sync.Mutex
+
+// LockSnapshot must be held while a snapshot point is drawn and registered,
+// and while the garbage collection horizon is determined.
+func LockSnapshot() {
+	snapshotM.Lock()
+}
+
+func UnlockSnapshot() {
+	snapshotM.Unlock()
+}
 
 func Set(s Seq) {
 	atomic.CompareAndSwapUint64(&seq, 0, uint64(s))
